@@ -268,6 +268,14 @@ static void encode_imm_data_transfer(struct instr *instrc) {
     DO_NOT_PAD(instrc->cons, instrc->reduced_imm, MAX_UNSIGNED_32BIT);
     return;
   }
+  // a memory destination only takes a 32-bit immediate (there is no
+  // 'mov m64, imm64'): keep the low 32 bits, as nasm does, and encode the
+  // memory operand instead of falling back to the register-only imm64 form
+  if (instrc->mem_disp && instrc->cons > MAX_UNSIGNED_32BIT) {
+    instrc->key++;
+    DO_NOT_PAD(instrc->cons, instrc->reduced_imm, MAX_UNSIGNED_32BIT);
+    return;
+  }
   // a 32-bit register takes the low 32 bits of a negative immediate
   if (instrc->cons > MAX_UNSIGNED_32BIT &&
       ((instrc->opd[0].reg & MODE_MASK) == reg32 ||
